@@ -95,9 +95,8 @@ func (d DateSpan) ToDate() Date {
 		d.Months(),
 		1,
 	)
-	date = date.AddDateSpan(MakeDateSpan(0, 0, d.Days()))
-
-	return date
+	datetime := date.ToDateTimeValue()
+	return datetime.AddDateSpan(MakeDateSpan(0, 0, d.Days())).Date()
 }
 
 func (x DateSpan) Cmp(y DateSpan) int {
